@@ -25,7 +25,7 @@ m = {"version": 1, "setup_cmd": "./vf setup",
      "hooks": {"guard": "--cfg diplomat_verif", "enable": "none needed: all observation points are public (CLI, public diplomat_core API, runtime pub items and #[no_mangle] symbols); no hook commits exist",
                "baseline_off_cmd": "cd /repo && cargo test --workspace --no-fail-fast --offline", "source_commits": [], "add_only": True},
      "engines": [{"name": "rtmon", "path": "/verif/rs/rtmon", "serves_properties": ["C03", "C12", "C16"], "kind_free_text": "Rust harness over diplomat-runtime run natively, under ASan, valgrind and Miri"},
-                {"name": "wasm32-e2e", "path": "/verif/engine/wasm32.py", "serves_properties": ["C04", "C08", "C10"], "kind_free_text": "private wasm32 sysroot (libcore, liballoc, compiler_builtins stub from rust-src), the tree's runtime compiled for wasm32 with a regenerated no_std root, a support crate (guarded bump allocator, panic handler, mem*), generated bridges + generated JS driven in node (engine/emit_js.py)"},
+                {"name": "wasm32-e2e", "path": "/verif/engine/wasm32.py", "serves_properties": ["C04", "C08", "C10", "C11"], "kind_free_text": "private wasm32 sysroot (libcore, liballoc, compiler_builtins stub from rust-src), the tree's runtime compiled for wasm32 with a regenerated no_std root, a support crate (guarded bump allocator, panic handler, mem*), generated bridges + generated JS driven in node (engine/emit_js.py)"},
                 {"name": "mirileg", "path": "/verif/rs/mirileg", "serves_properties": ["C03", "C12"], "kind_free_text": "cargo crate whose bins are generated bridges + Rust foreign-caller drivers (engine/emit_rsdrv.py), interpreted by Miri"},
                  {"name": "bridgegen", "path": "/verif/engine", "serves_properties": sorted(k for k in CLAIMED if k not in ("C16",)), "kind_free_text": "python3 grammar-based bridge generator, call-script oracle, C/C++/JS drivers, output parsers and reference models"}],
      "checks": checks, "not_applicable": na,
